@@ -24,12 +24,12 @@ def main():
         ck.broken.append("Spec/C09Oracle.v / Model/ProtocolCheck.v do not build")
         ck.finish(BASE_TRUST + PROTO_TRUST)
     tmpd = tempfile.mkdtemp(prefix="lsf_c09_")
-    sizes = [("seq", 900 if thorough else 150), ("fanout_ok", 500 if thorough else 80), ("fanout_fail", 500 if thorough else 80)]
+    sizes = [("seq", 900 if thorough else 150), ("fanout_ok", 500 if thorough else 80), ("fanout_fail", 500 if thorough else 80), ("fanout_fail_nested", 200 if thorough else 80)]
     F22 = ("F22", lambda d: d.get("nested_fanout_with_failure"))
 
     def desc(info):
         d = eg.describe(info)
-        d["nested_fanout_with_failure"] = cp.fanout_depth(info.definition) >= 2 and info.profile == "fanout_fail"
+        d["nested_fanout_with_failure"] = cp.fanout_depth(info.definition) >= 2 and info.profile in ("fanout_fail", "fanout_fail_nested")
         return d
 
     cases, cdesc, raws, chains, chdesc, pcases, pdesc, tcases, tdesc = [], [], [], [], [], [], [], [], []
@@ -56,6 +56,9 @@ def main():
             tdesc.append(info)
             info.world = None       # free the engine
     shutil.rmtree(tmpd, ignore_errors=True)
+    import time as _t
+    _t0 = _t.time()
+    print("runs done at %.0fs" % (_t0 - ck.t0), file=sys.stderr)
 
     r = ck.eval_cases("replay", "PyStr Cases TraceSpec Protocol ProtocolCheck", "proto_case", pcases, ["proto_model"], per_file=25, timeout=900, prelude=PRE)
     if r is not None:
@@ -84,6 +87,7 @@ def main():
                     continue
                 d["api"] = raws[i]
                 ck.violation("%s: %s" % (what[f], json.dumps({k: d[k] for k in ("profile", "schedule", "definition", "inputs")})[:1500]), {"case": d, "monitor": f})
+    print("api done at %.0fs" % (_t.time() - ck.t0), file=sys.stderr)
     ck.add_group("api", len(cases), sum(1 for x in raws if len(x["history"]) > 4), [{"run": desc(cdesc[0]), "api": raws[0]}] if raws else [],
                  events=sum(len(x["history"]) for x in raws), express=sum(1 for i in cdesc if i.profile == "express"))
 
@@ -92,6 +96,7 @@ def main():
         for i in r["prefix_chain"][:3]:
             d = desc(chdesc[i])
             ck.violation("the stored history was changed other than by appending: %s" % json.dumps({k: d[k] for k in ("profile", "schedule", "definition", "inputs")})[:1500], {"case": d, "monitor": "prefix_chain"})
+    print("store done at %.0fs" % (_t.time() - ck.t0), file=sys.stderr)
     ck.add_group("store_after_every_step", len(chains), len(chains), [])
 
     r = ck.eval_cases("trace", "PyStr Cases TraceSpec C09Oracle", "list xid * list effect", tcases, ["(fun c => c09_hist_ok (fst c) (snd c))", "(fun c => forallb (fun x => hist_agrees x (snd c)) (fst c))"], per_file=40, timeout=900, prelude=PRE)
